@@ -1,4 +1,4 @@
-import BaoModel.Ops3
+import BaoModel.Ops4
 
 open Bao Bao.Ops
 
@@ -26,6 +26,10 @@ def dispatch (op : String) (args : List String) (impl : String) : Verdict :=
   | "enc2" => opEnc2 args impl
   | "valid" => opValid args impl
   | "hist" => opHist args impl
+  | "serde" => opSerde args impl
+  | "fragdec" => opFragDec args impl
+  | "fragob" => opFragOb args impl
+  | "fragenc" => opFragEnc args impl
   | _ => bad s!"unknown op {op}"
 
 /-- one input line `op arg ... | impl output` → one verdict line
